@@ -33,7 +33,13 @@ type batchCase struct {
 	Calls     []batchCall
 	Invalid   string // "" | mixed-tables | duplicate | non-batchable
 	InvalidAt int
-	Trigger   string // "" | drop-table-on-nsre | cancel-before | cancel-waiting | cancel-backoff | cancel-call-waiting
+	// Trigger: "" | drop-table-on-nsre | cancel-before | cancel-waiting | cancel-backoff |
+	// own-ctx-reply-held (the last call has a context of its own, cancelled while the
+	// reply to the multi-request that carries it and an earlier call is held; its
+	// result is listed first) | own-ctx-sibling-retried (the last call, alone on the
+	// second server, has its own context cancelled while unanswered; a call on the
+	// first server is answered retry-later and then succeeds)
+	Trigger   string
 	Deadline  time.Duration
 }
 
@@ -57,7 +63,9 @@ func (b batchCase) matrix() string {
 
 // "abort" is a per-action exception of the server-fatal class: the connection
 // stays usable, other actions of the same multi-request are answered normally.
-var batchOutcomes = []string{"ok", "ok", "fatal", "retry", "nsre", "dead-before", "dead-after", "abort"}
+// "rfatal" fails the whole region action the call travels in with a
+// non-retryable region-level exception (its siblings of that region share it).
+var batchOutcomes = []string{"ok", "ok", "fatal", "retry", "nsre", "dead-before", "dead-after", "abort", "rfatal"}
 
 func genBatchCase(r *rand.Rand, maxCalls int) batchCase {
 	b := batchCase{Seed: r.Int63(), Servers: 1 + r.Intn(3), Queue: []int{1, 2, 5, 100}[r.Intn(4)],
@@ -83,14 +91,14 @@ func genBatchCase(r *rand.Rand, maxCalls int) batchCase {
 			for k, l := 0, r.Intn(4); k < l; k++ {
 				o := batchOutcomes[r.Intn(len(batchOutcomes))]
 				c.Script = append(c.Script, o)
-				if o == "ok" || o == "fatal" {
+				if o == "ok" || o == "fatal" || o == "rfatal" {
 					break
 				}
 			}
 		}
 		b.Calls = append(b.Calls, c)
 	}
-	switch r.Intn(12) {
+	switch r.Intn(14) {
 	case 0:
 		b.Invalid = "mixed-tables"
 	case 1:
@@ -111,6 +119,28 @@ func genBatchCase(r *rand.Rand, maxCalls int) batchCase {
 	case 7:
 		b.Trigger = "cancel-backoff"
 		b.Calls[r.Intn(len(b.Calls))].Script = []string{"retry", "retry", "retry", "retry", "retry", "retry", "retry", "retry", "retry"}
+	case 8:
+		b.Trigger = "own-ctx-reply-held"
+		b.Servers, b.Bounds, b.Queue = 1, nil, 100
+		if len(b.Calls) < 2 {
+			b.Calls = append(b.Calls, batchCall{Kind: "put", Row: "m5"})
+		}
+		for i := range b.Calls {
+			b.Calls[i].Script = nil
+		}
+	case 9:
+		b.Trigger = "own-ctx-sibling-retried"
+		b.Servers, b.Bounds = 2, []string{"m"}
+		b.Calls = append([]batchCall{{Kind: "put", Row: "a1", Script: []string{"retry"}}}, b.Calls...)
+		for i := range b.Calls {
+			if i > 0 {
+				b.Calls[i].Script = nil
+				if b.Calls[i].Row >= "m" { // everything but the last call lives on the first server
+					b.Calls[i].Row = "c" + b.Calls[i].Row
+				}
+			}
+		}
+		b.Calls = append(b.Calls, batchCall{Kind: "get", Row: "x1"})
 	}
 	if b.Invalid != "" {
 		b.InvalidAt = r.Intn(len(b.Calls) + 1)
@@ -155,6 +185,7 @@ type batchRun struct {
 	Cluster     *sim.Cluster
 	Elapsed     time.Duration
 	CancelledAt time.Duration
+	OwnCtx      int // index of the call with a context of its own (-1: none)
 }
 
 const fatalMarker = "fatal-for-"
@@ -169,7 +200,20 @@ func runBatchCase(b batchCase, tag string) *batchRun {
 	cl.CreateTable("other", nil, nil)
 	cl.EchoResults = true
 	cl.PermuteMulti = b.Seed%2 == 0
-	run := &batchRun{Case: b, Attempts: map[string][]*batchAttempt{}, Cluster: cl}
+	run := &batchRun{Case: b, Attempts: map[string][]*batchAttempt{}, Cluster: cl, OwnCtx: -1}
+	var cancelOwnCtx func()
+	var ownOnce sync.Once
+	ownOp := ""
+	switch b.Trigger {
+	case "own-ctx-reply-held":
+		cl.ReverseMulti = true
+		cl.PermuteMulti = false
+	case "own-ctx-sibling-retried":
+		// region 0 on rs0, region 1 on rs1
+		for i, rg := range cl.Regions("t") {
+			cl.MoveRegion(rg.Name, fmt.Sprintf("rs%d:16020", i))
+		}
+	}
 	scripts := map[string][]string{}
 	var mu sync.Mutex
 	arrivals := map[string]int{}
@@ -234,6 +278,36 @@ func runBatchCase(b batchCase, tag string) *batchRun {
 		if !relevant {
 			return nil
 		}
+		if ownOp != "" {
+			carriesOwn := false
+			for _, a := range acts {
+				if a.OpID == ownOp {
+					carriesOwn = true
+				}
+			}
+			if carriesOwn {
+				fired := false
+				ownOnce.Do(func() { fired = true })
+				if fired {
+					switch b.Trigger {
+					case "own-ctx-reply-held":
+						// executed, reply held; the call's context is cancelled; then
+						// the reply goes out with this call's result listed first
+						h := make(chan struct{})
+						go func() {
+							time.Sleep(3 * time.Millisecond)
+							cancelOwnCtx()
+							time.Sleep(10 * time.Millisecond)
+							close(h)
+						}()
+						return &sim.Reply{HoldDefault: h}
+					case "own-ctx-sibling-retried":
+						go func() { time.Sleep(3 * time.Millisecond); cancelOwnCtx() }()
+						return &sim.Reply{HoldDefault: hold}
+					}
+				}
+			}
+		}
 		if b.Trigger == "cancel-waiting" {
 			go func() { time.Sleep(2 * time.Millisecond); doCancel() }()
 			return &sim.Reply{HoldDefault: hold}
@@ -245,6 +319,27 @@ func runBatchCase(b batchCase, tag string) *batchRun {
 			return &sim.Reply{DefaultThenKill: true}
 		}
 		return nil
+	}
+	cl.OnRegionAction = func(req *sim.Request, region []byte) *sim.Exc {
+		mu.Lock()
+		defer mu.Unlock()
+		hit := false
+		var ops []string
+		for _, ra := range req.Multi {
+			if string(ra.Region) != string(region) {
+				continue
+			}
+			for _, a := range ra.Actions {
+				ops = append(ops, fatalMarker+a.OpID)
+				if decisions[fmt.Sprintf("%d/%d/%s", req.Conn.ID, req.CallID, a.OpID)] == "rfatal" {
+					hit = true
+				}
+			}
+		}
+		if !hit {
+			return nil
+		}
+		return &sim.Exc{Class: sim.ExcDoNotRetry, Stack: sim.ExcDoNotRetry + ": region action refused\n" + strings.Join(ops, "\n")}
 	}
 	cl.OnAction = func(req *sim.Request, a *sim.Action) *sim.Exc {
 		mu.Lock()
@@ -274,7 +369,18 @@ func runBatchCase(b batchCase, tag string) *batchRun {
 	}
 	client := newClient(cl, gohbase.RpcQueueSize(b.Queue), gohbase.FlushInterval(b.Flush),
 		gohbase.RegionLookupTimeout(3*time.Second), gohbase.RegionReadTimeout(5*time.Second))
+	ownCtx, cancelOwn := context.WithCancel(ctx)
+	defer cancelOwn()
+	ownIdx := -1
+	if strings.HasPrefix(b.Trigger, "own-ctx") {
+		ownIdx = len(b.Calls) - 1
+		run.OwnCtx = ownIdx
+	}
 	mk := func(i int, c batchCall, table string) (hrpc.Call, string) {
+		ctx := ctx
+		if i == ownIdx {
+			ctx = ownCtx
+		}
 		opid := fmt.Sprintf("%s%s-%d", sim.OpIDPrefix, tag, i)
 		row := []byte(c.Row)
 		vals := map[string]map[string][]byte{"f": {opid: []byte("v")}}
@@ -303,7 +409,13 @@ func runBatchCase(b batchCase, tag string) *batchRun {
 		run.Calls = append(run.Calls, call)
 		run.OpIDs = append(run.OpIDs, opid)
 		scripts[opid] = c.Script
+		if i == ownIdx {
+			mu.Lock()
+			ownOp = opid
+			mu.Unlock()
+		}
 	}
+	cancelOwnCtx = cancelOwn
 	switch b.Invalid {
 	case "mixed-tables":
 		call, opid := mk(1000, batchCall{Kind: "put", Row: "zz"}, "other")
@@ -395,8 +507,8 @@ func (r *batchRun) actual(a *batchAttempt) string {
 func enumBatchCases() []batchCase {
 	rows := []string{"a1", "z1", "b2", "y2"}
 	kinds := []string{"put", "get", "increment", "append"}
-	outcomes := []string{"fatal", "retry", "nsre", "dead-before", "dead-after", "abort"}
-	seconds := []string{"", "ok", "fatal", "retry", "nsre", "dead-before", "dead-after", "abort"}
+	outcomes := []string{"fatal", "retry", "nsre", "dead-before", "dead-after", "abort", "rfatal"}
+	seconds := []string{"", "ok", "fatal", "retry", "nsre", "dead-before", "dead-after", "abort", "rfatal"}
 	var out []batchCase
 	seed := int64(1)
 	for n := 1; n <= 4; n++ {
